@@ -143,8 +143,7 @@ class _Render:
         """the statements of the body of `node` (shared by all forms)"""
         p = " " * ind
         out = [f"{p}try:", f"{p}    T('I', '{node.name}', tbot.log.NESTING)"]
-        for k in node.kids:
-            out += self.call(k, ind + 4)
+        out += self.calls(node.kids, ind + 4)
         if node.fin == "p":
             out.append(f"{p}    T('Y', '{node.name}', '-')")
             if node.form != "w":
@@ -155,10 +154,16 @@ class _Render:
             else:
                 out.append(f"{p}    raise ERRORS[{node.id % 4}]('boom in {node.name}')")
         elif node.fin == "s":
-            if node.id % 2:
+            # four surface forms of a skip, incl. a skip WITHOUT a reason text
+            k = node.id % 4
+            if k == 1:
                 out.append(f"{p}    tbot.skip('skipping {node.name}')")
-            else:
+            elif k == 2:
                 out.append(f"{p}    raise tbot.SkipException('skipping {node.name}')")
+            elif k == 3:
+                out.append(f"{p}    tbot.skip('')")
+            else:
+                out.append(f"{p}    raise tbot.SkipException()")
         elif node.fin == "k":
             out.append(f"{p}    raise KeyboardInterrupt()")
         out += [f"{p}except BaseException as e:", f"{p}    T('Y', '{node.name}', tag(e))", f"{p}    raise"]
@@ -178,10 +183,34 @@ class _Render:
         self.defs.append("\n".join([deco, f"def {fn}():"] + body + ["", f"{sym} = {fn}", "", ""]))
         return sym
 
-    def call(self, node, ind):
+    def calls(self, nodes, ind):
+        """the calls of sibling testcases in order.  When a sibling's exception is caught by its
+        caller, the NEXT sibling is sometimes run INSIDE that `except` block (a recovery testcase
+        called while the exception is still being handled) — the sequence of calls is the same."""
+        out = []
+        i = 0
+        while i < len(nodes):
+            n = nodes[i]
+            if n.guard in ("e", "a") and i + 1 < len(nodes) and n.id % 3 != 1:
+                out += self.call(n, ind, recover=nodes[i + 1])
+                i += 2
+            else:
+                out += self.call(n, ind)
+                i += 1
+        return out
+
+    def call(self, node, ind, recover=None):
         """the guarded call of `node` as written in its caller"""
         p = " " * ind
-        out = [f"{p}try:"]
+        out = []
+        flag = None
+        rec = []
+        if recover is not None:
+            self.count += 1
+            flag = f"_caught{self.count}"
+            out.append(f"{p}{flag} = False")
+            rec = [f"{p}    {flag} = True"] + self.call(recover, ind + 4)
+        out.append(f"{p}try:")
         if node.form == "w":
             out.append(f"{p}    with tbot.testcase('{node.name}'):")
             out += self.body(node, ind + 8)
@@ -193,12 +222,15 @@ class _Render:
             out.append(f"{p}    r = {sym}()")
         mark = f"T('R', '{node.name}', tag(e))"
         if node.guard == "e":
-            out += [f"{p}except Exception as e:", f"{p}    {mark}"]
+            out += [f"{p}except Exception as e:", f"{p}    {mark}"] + rec
         if node.guard == "a":
-            out += [f"{p}except BaseException as e:", f"{p}    {mark}"]
+            out += [f"{p}except BaseException as e:", f"{p}    {mark}"] + rec
         else:
             out += [f"{p}except BaseException as e:", f"{p}    {mark}", f"{p}    raise"]
         out += [f"{p}else:", f"{p}    T('R', '{node.name}', val(r))"]
+        if recover is not None:
+            out.append(f"{p}if not {flag}:")
+            out += self.call(recover, ind + 4)
         return out
 
 
@@ -208,8 +240,7 @@ def render(case, epilogue=""):
     r = _Render()
     if case.mode == "ip":
         drive = ["def drive():"]
-        for root in case.roots:
-            drive += r.call(root, 4)
+        drive += r.calls(case.roots, 4)
         drive.append("    return None")
         src = PROLOGUE + "".join(d for d in r.defs) + "\n".join(drive) + "\n"
         return src, [], []
